@@ -38,13 +38,15 @@ SerText(v) ==
     [] v.t = "str"  -> Encode(v.s)
     [] v.t = "arr"  -> <<91>> \o Join([i \in 1..Len(v.e) |-> SerText(v.e[i])], <<44>>) \o <<93>>
     [] v.t = "obj"  -> <<123>> \o Join([i \in 1..Len(v.m) |-> Encode(v.m[i][1].s) \o <<58>> \o SerText(v.m[i][2])], <<44>>) \o <<125>>
-Indent(n) == FoldLeft(LAMBDA acc, i : acc \o <<32, 32>>, <<>>, [i \in 1..n |-> i])
-RECURSIVE PrettyText(_, _)
-PrettyText(v, d) ==
+\* the pretty form with an arbitrary indentation unit (PrettyFormatter::with_indent); the default unit is two spaces
+IndentI(n, ind) == FoldLeft(LAMBDA acc, i : acc \o ind, <<>>, [i \in 1..n |-> i])
+RECURSIVE PrettyTextI(_, _, _)
+PrettyTextI(v, d, ind) ==
   CASE v.t = "arr" -> IF v.e = <<>> THEN <<91, 93>>
-                      ELSE <<91>> \o Join([i \in 1..Len(v.e) |-> <<10>> \o Indent(d + 1) \o PrettyText(v.e[i], d + 1)], <<44>>) \o <<10>> \o Indent(d) \o <<93>>
+                      ELSE <<91>> \o Join([i \in 1..Len(v.e) |-> <<10>> \o IndentI(d + 1, ind) \o PrettyTextI(v.e[i], d + 1, ind)], <<44>>) \o <<10>> \o IndentI(d, ind) \o <<93>>
     [] v.t = "obj" -> IF v.m = <<>> THEN <<123, 125>>
-                      ELSE <<123>> \o Join([i \in 1..Len(v.m) |-> <<10>> \o Indent(d + 1) \o Encode(v.m[i][1].s) \o <<58, 32>> \o PrettyText(v.m[i][2], d + 1)], <<44>>)
-                           \o <<10>> \o Indent(d) \o <<125>>
+                      ELSE <<123>> \o Join([i \in 1..Len(v.m) |-> <<10>> \o IndentI(d + 1, ind) \o Encode(v.m[i][1].s) \o <<58, 32>> \o PrettyTextI(v.m[i][2], d + 1, ind)], <<44>>)
+                           \o <<10>> \o IndentI(d, ind) \o <<125>>
     [] OTHER -> SerText(v)
+PrettyText(v, d) == PrettyTextI(v, d, <<32, 32>>)
 =============================================================================
